@@ -258,6 +258,234 @@ impl Part for TextFields {
     }
 }
 
+
+// ------------------------------------------------------------------ packets built through the public set APIs (histories)
+/// One call on the public API of a set-valued packet field (PlcAllowedCarsSet in IS_PLC / SMALL_ALC, the mod list of IS_MAL,
+/// the ban list of IS_IPB). `key` indexes a small pool so that removals and re-insertions hit.
+#[derive(Clone, Debug)]
+pub enum SetOp {
+    Insert(u8),
+    Remove(u8),
+    Clear,
+    /// PlcAllowedCarsSet::from_bits_truncate (other containers: a clone of the container, which must carry the same state)
+    Rebuild(u32),
+}
+
+#[derive(Clone, Debug)]
+pub struct SetApiCase {
+    /// 0 = Plc, 1 = Small/Alc, 2 = Mal, 3 = Ipb
+    pub container: u8,
+    pub compressed: bool,
+    pub ops: Vec<SetOp>,
+}
+
+/// the 20 standard cars in the bit order InSim.txt gives for PLC / SMALL_ALC (XF GTI = 1 ... FBM = 0x80000)
+fn standard_cars() -> [insim_core::vehicle::Vehicle; 20] {
+    use insim_core::vehicle::Vehicle::*;
+    [Xfg, Xrg, Xrt, Rb4, Fxo, Lx4, Lx6, Mrt, Uf1, Rac, Fz5, Fox, Xfr, Ufr, Fo8, Fxr, Xrr, Fzr, Bf1, Fbm]
+}
+
+const MOD_POOL: [u32; 10] = [0x00AB_CDEF, 0x0012_3456, 0x8123_4567, 1, 0xFFFF_FFFF, 0x0047_5258, 0x0100_0000, 0x00C2_9C37, 0x7FFF_FFFF, 0x0000_0100];
+
+pub struct SetApi;
+impl Part for SetApi {
+    type Case = SetApiCase;
+    fn name(&self) -> &'static str {
+        "set-api-histories"
+    }
+    fn check(&self, c: &SetApiCase, ev: &mut Local) -> Result<(), Fail> {
+        use insim::insim::{Ipb, Mal, Plc, PlcAllowedCarsSet, Small, SmallType};
+        use insim_core::vehicle::Vehicle;
+        use std::net::Ipv4Addr;
+        let mode = if c.compressed { Mode::Compressed } else { Mode::Uncompressed };
+        let cars = standard_cars();
+        let kind = ["Plc", "Small", "Mal", "Ipb"][c.container as usize % 4];
+        // the model: keys in insertion order (IndexSet semantics)
+        let mut model: Vec<u32> = vec![];
+        let mut plc = PlcAllowedCarsSet::default();
+        let mut mal = Mal::default();
+        let mut ipb = Ipb::default();
+        let ip_of = |k: u32| Ipv4Addr::new(10, (k >> 8) as u8, k as u8, 1 + (k % 200) as u8);
+        let mut cleared = false;
+        for (step, op) in c.ops.iter().enumerate() {
+            let at = |what: &str| Fail::new(format!("c01:set-api:{kind}:{what}"), format!("{kind}, step {step} of {:?}", c.ops));
+            match (c.container % 4, op) {
+                (0 | 1, SetOp::Insert(k)) => {
+                    let k = *k as usize % 23;
+                    if k < 20 {
+                        let fresh = !model.contains(&(k as u32));
+                        let r = plc.insert(cars[k].clone());
+                        ensure!(matches!(r, Ok(f) if f == fresh), at("insert-result").sig, "{}: insert({:?}) returned {r:?}, expected Ok({fresh})", at("").msg, cars[k]);
+                        if fresh {
+                            model.push(k as u32);
+                        }
+                    } else {
+                        // not a standard car: must be refused and leave the set alone
+                        let v = if k == 20 { Vehicle::Unknown } else { Vehicle::Mod(MOD_POOL[k - 21]) };
+                        let r = plc.insert(v.clone());
+                        ensure!(r.is_err(), at("insert-nonstandard").sig, "{}: insert({v:?}) returned {r:?}", at("").msg);
+                    }
+                },
+                (0 | 1, SetOp::Remove(k)) => {
+                    let k = *k as usize % 20;
+                    let had = model.contains(&(k as u32));
+                    let r = plc.remove(&cars[k]);
+                    ensure!(r == had, at("remove-result").sig, "{}: remove({:?}) returned {r}, expected {had}", at("").msg, cars[k]);
+                    model.retain(|x| *x != k as u32);
+                },
+                (0 | 1, SetOp::Clear) => {
+                    plc.clear();
+                    model.clear();
+                    cleared = true;
+                },
+                (0 | 1, SetOp::Rebuild(bits)) => {
+                    plc = PlcAllowedCarsSet::from_bits_truncate(*bits);
+                    model = (0..20u32).filter(|i| bits & (1 << i) != 0).collect();
+                },
+                (2, SetOp::Insert(k)) => {
+                    let k = *k as usize % 12;
+                    if k < 10 {
+                        let id = MOD_POOL[k];
+                        let fresh = !model.contains(&id);
+                        let r = mal.insert(Vehicle::Mod(id));
+                        ensure!(matches!(r, Ok(f) if f == fresh), at("insert-result").sig, "{}: insert(Mod({id:#x})) returned {r:?}, expected Ok({fresh})", at("").msg);
+                        if fresh {
+                            model.push(id);
+                        }
+                    } else {
+                        let v = if k == 10 { Vehicle::Unknown } else { Vehicle::Xrg };
+                        let r = mal.insert(v.clone());
+                        ensure!(r.is_err(), at("insert-non-mod").sig, "{}: insert({v:?}) returned {r:?}", at("").msg);
+                    }
+                },
+                (2, SetOp::Remove(k)) => {
+                    let id = MOD_POOL[*k as usize % 10];
+                    let had = model.contains(&id);
+                    let r = mal.remove(&Vehicle::Mod(id));
+                    ensure!(r == had, at("remove-result").sig, "{}: remove returned {r}, expected {had}", at("").msg);
+                    model.retain(|x| *x != id);
+                },
+                (2, SetOp::Clear) => {
+                    mal.clear();
+                    model.clear();
+                    cleared = true;
+                },
+                (2, SetOp::Rebuild(_)) => mal = mal.clone(),
+                (_, SetOp::Insert(k)) => {
+                    let id = *k as u32 % 12;
+                    let fresh = !model.contains(&id);
+                    let r = ipb.insert(ip_of(id));
+                    ensure!(r == fresh, at("insert-result").sig, "{}: insert returned {r}, expected {fresh}", at("").msg);
+                    if fresh {
+                        model.push(id);
+                    }
+                },
+                (_, SetOp::Remove(k)) => {
+                    let id = *k as u32 % 12;
+                    let had = model.contains(&id);
+                    let r = ipb.remove(&ip_of(id));
+                    ensure!(r == had, at("remove-result").sig, "{}: remove returned {r}, expected {had}", at("").msg);
+                    model.retain(|x| *x != id);
+                },
+                (_, SetOp::Clear) => {
+                    ipb.clear();
+                    model.clear();
+                    cleared = true;
+                },
+                (_, SetOp::Rebuild(_)) => ipb = ipb.clone(),
+            }
+            // after every call: the container answers like the model, and the packet round-trips to the model's value
+            let (p0, len, expect_body): (Packet, usize, Vec<u8>) = match c.container % 4 {
+                0 | 1 => {
+                    let bits = model.iter().fold(0u32, |a, k| a | (1 << k));
+                    for (i, v) in cars.iter().enumerate() {
+                        ensure!(plc.contains(v) == model.contains(&(i as u32)), at("contains").sig, "{}: contains({v:?}) = {}", at("").msg, plc.contains(v));
+                    }
+                    ensure!(plc.bits() == bits, at("bits").sig, "{}: bits() = {:#x}, the calls so far leave {:#x}", at("").msg, plc.bits(), bits);
+                    let p = if c.container % 4 == 0 {
+                        let mut x = Plc::default();
+                        x.cars = plc.clone();
+                        Packet::Plc(x)
+                    } else {
+                        let mut x = Small::default();
+                        x.subt = SmallType::Alc(plc.clone());
+                        Packet::Small(x)
+                    };
+                    (p, plc.len(), bits.to_le_bytes().to_vec())
+                },
+                2 => {
+                    let got: Vec<u32> = mal.iter().map(|v| if let Vehicle::Mod(i) = v { *i } else { 0 }).collect();
+                    ensure!(got == model, at("iteration-order").sig, "{}: iter() gives {got:x?}, the calls so far leave {model:x?}", at("").msg);
+                    (Packet::Mal(mal.clone()), mal.len(), model.iter().flat_map(|i| i.to_le_bytes()).collect())
+                },
+                _ => {
+                    let got: Vec<Ipv4Addr> = ipb.iter().cloned().collect();
+                    let want: Vec<Ipv4Addr> = model.iter().map(|k| ip_of(*k)).collect();
+                    ensure!(got == want, at("iteration-order").sig, "{}: iter() gives {got:?}, expected {want:?}", at("").msg);
+                    (Packet::Ipb(ipb.clone()), ipb.len(), vec![])
+                },
+            };
+            ensure!(len == model.len(), at("len").sig, "{}: len() = {len}, the calls so far leave {} elements", at("").msg, model.len());
+            let e1 = judge_roundtrip(&p0, &mode, "packet built through the set API")?;
+            // the frame carries exactly the model's elements (bit mask, resp. ids in order)
+            match c.container % 4 {
+                0 => ensure!(e1.len() == 12 && e1[8..12] == expect_body[..], at("wire").sig, "{}: frame {} does not carry the mask {}", at("").msg, hex(&e1), hex(&expect_body)),
+                1 => ensure!(e1.len() == 8 && e1[4..8] == expect_body[..], at("wire").sig, "{}: frame {} does not carry the mask {}", at("").msg, hex(&e1), hex(&expect_body)),
+                2 => ensure!(e1[3] as usize == model.len() && e1[8..] == expect_body[..], at("wire").sig, "{}: frame {} does not carry the ids {:x?}", at("").msg, hex(&e1), model),
+                _ => ensure!(e1[3] as usize == model.len() && e1.len() == 8 + 4 * model.len(), at("wire").sig, "{}: frame {} does not carry {} bans", at("").msg, hex(&e1), model.len()),
+            }
+        }
+        if c.ops.len() >= 2 {
+            ev.nontrivial(&format!("{c:?}"));
+        }
+        ev.class(kind);
+        if cleared && !model.is_empty() {
+            ev.class("re-filled after clear()");
+        }
+        if ev.wants_sample() && c.ops.len() >= 3 && c.ops.len() <= 6 {
+            ev.sample(|| json!({"container": kind, "calls": format!("{:?}", c.ops), "left": format!("{model:x?}")}));
+        }
+        Ok(())
+    }
+    fn to_json(&self, c: &SetApiCase) -> Value {
+        let ops: Vec<Value> = c
+            .ops
+            .iter()
+            .map(|o| match o {
+                SetOp::Insert(k) => json!(["insert", k]),
+                SetOp::Remove(k) => json!(["remove", k]),
+                SetOp::Clear => json!(["clear"]),
+                SetOp::Rebuild(b) => json!(["rebuild", b]),
+            })
+            .collect();
+        json!({"container": c.container, "compressed": c.compressed, "ops": ops})
+    }
+    fn from_json(&self, v: &Value) -> Option<SetApiCase> {
+        let mut ops = vec![];
+        for o in v.get("ops")?.as_array()? {
+            let a = o.as_array()?;
+            ops.push(match a.first()?.as_str()? {
+                "insert" => SetOp::Insert(a.get(1)?.as_u64()? as u8),
+                "remove" => SetOp::Remove(a.get(1)?.as_u64()? as u8),
+                "clear" => SetOp::Clear,
+                "rebuild" => SetOp::Rebuild(a.get(1)?.as_u64()? as u32),
+                _ => return None,
+            });
+        }
+        Some(SetApiCase { container: v.get("container")?.as_u64()? as u8, compressed: v.get("compressed")?.as_bool()?, ops })
+    }
+}
+
+fn set_api_strategy() -> impl Strategy<Value = SetApiCase> {
+    let op = prop_oneof![
+        6 => any::<u8>().prop_map(SetOp::Insert),
+        3 => any::<u8>().prop_map(SetOp::Remove),
+        1 => Just(SetOp::Clear),
+        1 => prop_oneof![any::<u32>(), (0u32..20).prop_map(|b| 1 << b), Just(0xF_FFFFu32)].prop_map(SetOp::Rebuild),
+    ];
+    (0u8..4, any::<bool>(), proptest::collection::vec(op, 1..14)).prop_map(|(container, compressed, ops)| SetApiCase { container, compressed, ops })
+}
+
 /// caret-free text over ASCII + the union repertoire (C10's faithful domain). Trailing content is arbitrary.
 pub fn field_text_strategy() -> impl Strategy<Value = String> {
     let tables = cp::tables();
@@ -278,7 +506,7 @@ pub fn field_text_strategy() -> impl Strategy<Value = String> {
 }
 
 pub fn parts() -> Vec<Box<dyn DynPart>> {
-    vec![Box::new(Route1), Box::new(Route2), Box::new(TextFields)]
+    vec![Box::new(Route1), Box::new(Route2), Box::new(TextFields), Box::new(SetApi)]
 }
 
 pub fn run(run: &mut Run) {
@@ -289,7 +517,9 @@ pub fn run(run: &mut Run) {
     run.rule = "Typed packets of all 73 kinds are obtained (1) by decoding frames built by the reference codec from a random entropy \
         tape (every wire-representable value: full integer ranges, every enumerant, flag subsets, nibbles, NaN payloads, multi-codepage \
         text, 0..max element counts), (2) by hand through the public fields for the kinds with hand-written codecs / counted \
-        collections, (3) by placing caret-free text over the ten codepage repertoires in each of the 30 text-bearing fields. \
+        collections, (3) by placing caret-free text over the ten codepage repertoires in each of the 30 text-bearing fields, (4) through \
+        histories of calls (insert / remove / clear / from_bits) on the public set-valued fields of PLC, SMALL_ALC, MAL and IPB, compared \
+        with an ordered-set model after every call. \
         Oracle: encode(p0) succeeds, decode(e1) consumes e1 and renders identically to p0 (Debug), encode(p1) == e1 byte for byte; \
         both size modes. Non-trivial = the frame differs from the kind's all-zero frame."
         .into();
@@ -304,4 +534,7 @@ pub fn run(run: &mut Run) {
     let n = run.budget(150_000, 6_000_000);
     let strat = (0..build::TEXT_FIELDS.len(), any::<bool>(), field_text_strategy()).prop_map(|(field, compressed, text)| TextCase { field, compressed, text });
     run.prop(&TextFields, strat, n);
+    // (4) histories of calls on the public set APIs (insert / remove / clear / from_bits), round trip after every call
+    let n = run.budget(40_000, 2_000_000);
+    run.prop(&SetApi, set_api_strategy(), n);
 }
